@@ -170,3 +170,11 @@ add("C32", "fault_enumeration", ["dbh"], dbh("c32", ["--n", "24"], ["--n", "200"
     "succeed with the model monitors holding, and everything must survive close + reopen with plain DbFile. Write/resize faults are a known, "
     "unrepaired finding (KF-C32-1); flush faults and 'faulted query reports success' are live verdicts.",
     "Faults are injected before the call reaches the real storage, so file and memory halves never diverge by themselves.", "DESIGN.md §6 C32")
+
+add("C23", "exploration", ["dbh"], dbh("c23", ["--n", "9", "--workers", "3"], ["--n", "60", "--workers", "2"]),
+    "result comparison of concurrent readers against a sequential baseline, with hooked read-path counters and a seek/read gap hook",
+    "Fixed databases behind Arc<RwLock<_>> on DbFile, DbAny::new_file and Db; 16 (thorough 48) reader threads run random read queries and read "
+    "transactions under the read lock while the read-gap hook yields between seek and read; every result must equal the sequential baseline. "
+    "Evidence shows the numbers of locked and fallback-handle file reads observed.",
+    "Interleavings are those the OS scheduler produces on 16 cores with the widened window; a specific interleaving cannot be forced.",
+    "DESIGN.md §6 C23")
